@@ -122,8 +122,7 @@ def main(replay=None):
     quick = ck.tier != "thorough"
     bdir, hb = ck.prepare("Props/Properties_C18.v", "h_c18.cpp")
     if hb is None or any(v[0] == "extract" for v in ck.violations):
-        ck.drop_proof_violation_if(any(v[3] for v in ck.violations))
-    return ck.finish()
+        return ck.finish()
     rng = ck.rng; wd = ck.workdir
     rp = json.load(open(replay)) if replay else None
 
@@ -285,5 +284,7 @@ def main(replay=None):
                        "arguments of type Index/Dimension/unsigned are 32-bit, size_t/streamoff 64-bit (LP64)",
                        "std::ofstream sets failbit/badbit when the device refuses bytes; flush() pushes buffered bytes to the device",
                        "runtime memory safety of the error paths is observed (crash / outcome class), not proved; no sanitizer in the quick tier"]
+    if not replay and ck.cov.get("evaluations", 0) < 100:
+        ck.violation("no-cases", "the check evaluated almost nothing (%s cases): the run is void" % ck.cov.get("evaluations", 0), dict(kind="void"), found_input=False)
     ck.drop_proof_violation_if(any(v[3] for v in ck.violations))
     return ck.finish()
